@@ -93,3 +93,9 @@ REG.contract('C20', C, '_eval_cfg', variant='other',
 REG.contract('C20', C, '_eval_cfg', trusted=True, params={'ir': Obj, 'cfgs': CFGS},
              ensures=['result == sem(ir, cfgs)'], pure_expr='sem(ir, cfgs)', result=Bool,
              note='induction hypothesis of the structural induction over the IR tree (children are strictly smaller; IR trees built by the parser are finite)')
+
+# ---- eval_cfg: the wrapper evaluates THIS expression against THIS configuration (a function of its two arguments)
+REG.contract('C20', 'mesonbuild/cargo/cfg.py', 'eval_cfg', params={'raw': Str, 'cfgs': Obj},
+             ensures=["result == (fn__eval_cfg(fn_parse(fn_lexer(raw[4:-1])), cfgs) if (raw.startswith('cfg(') and raw.endswith(')')) else False)"],
+             opaque_fns={'lexer': ([Str], Obj), 'parse': ([Obj], Obj), '_eval_cfg': ([Obj, Obj], Bool)}, result=Bool, floor=1,
+             note='lexer / parse / _eval_cfg are uninterpreted here (their own contracts and the bounded reference cover them): the wrapper adds nothing and remembers nothing')
